@@ -664,7 +664,26 @@ func (b *WB) builder(o *Op) *ecs.Builder {
 	if o.Vals {
 		bl = ecs.NewBuilderWith(b.W, b.Comps(o.Add, o.Tok)...)
 	} else {
-		bl = ecs.NewBuilder(b.W, b.MapIDs(o.Add)...)
+		// builders from IDs are long-lived helper objects: one per (component list, relation), made at
+		// first use and reused for the rest of the world's life, also across Reset. (The ID list
+		// handed to NewBuilder stays with the builder, so it is not among the scribbled arguments.)
+		key := fmt.Sprint(o.Add, o.Rel, o.C)
+		if bl, ok := b.builders[key]; ok {
+			return bl
+		}
+		ids := make([]ecs.ID, len(o.Add))
+		for i, c := range o.Add {
+			ids[i] = b.IDs[c]
+		}
+		bl = ecs.NewBuilder(b.W, ids...)
+		if o.Rel {
+			bl = bl.WithRelation(b.IDs[o.C])
+		}
+		if b.builders == nil {
+			b.builders = map[string]*ecs.Builder{}
+		}
+		b.builders[key] = bl
+		return bl
 	}
 	if o.Rel {
 		bl = bl.WithRelation(b.IDs[o.C])
@@ -1802,6 +1821,13 @@ func (s *Sim) checkRelQueries() {
 	for _, d := range s.DeadTargets {
 		targets[d] = true
 	}
+	// also entities that were a target once and have no children at the moment (their table exists
+	// and is empty)
+	for ord := range s.everTgt {
+		if ord >= 0 && ord < len(m.Ents) {
+			targets[ord] = true
+		}
+	}
 	tl := make([]int, 0, len(targets))
 	for t := range targets {
 		tl = append(tl, t)
@@ -1853,6 +1879,16 @@ func (s *Sim) relQueryRegistered(b *WB, f *F, c *Compiled, plain []int) *Finding
 		}
 		s.relRegs[key] = rc
 		s.label("relation filter kept registered")
+	} else if (s.Step+len(key)*7)%4 == 0 {
+		// now and then the filter is unregistered and registered again: the registration then
+		// happens in whatever state the target's table is in (e.g. existing but empty)
+		if p := Call(func() {
+			b.W.Cache().Unregister(rc.Cached)
+			cf := b.W.Cache().Register(rc.Flt)
+			rc.Cached = &cf
+		}); p != nil {
+			return finding(CatRelation, "%s: registering %s again panicked: %v", b.Name, f.String(), p)
+		}
 	}
 	var got []int
 	var fd *Finding
